@@ -323,6 +323,12 @@ def pipe1(ctx, lib):
             for x in local.walk(o):
                 if x[0] == "call" and lib.body(x[1]) is not None and CL in (lib.body(x[1]).sig_output or "") and not lib.body(x[1]).derived:
                     return (x[1], body.path, x[3] if len(x) > 3 else None)
+                if x[0] == "agg" and x[1] == "closure" and lib.body(x[2]) is not None and x[2] != body.path:
+                    # a closure in the iterator chain that produces the clusters itself
+                    cb2 = lib.body(x[2])
+                    for y in local.walk(local.Defs(cb2).local(0)):
+                        if y[0] == "call" and lib.body(y[1]) is not None and CL in (lib.body(y[1]).sig_output or "") and not lib.body(y[1]).derived:
+                            return (y[1], cb2.path, y[3] if len(y) > 3 else None)
             if body.kind == "closure" and depth < 3 and any(x[0] == "param" for x in local.walk(o)):
                 site = common.closure_site(lib, body)
                 if site is not None:
